@@ -445,6 +445,18 @@ def decoy_family(W):
                      app("b1", "f1", cookie="sid:1"),
                      {"op": "check", "b": "b2", "f": "f1", "kind": "logout", "cookie": "sid:1", "decoy": "only"}]
             res.append({"id": "decoy/%s/%s" % (st, prefix or "noprefix"), "cfg": {"filters": [f]}, "steps": steps, "tags": ["decoyCookie"]})
+            # a look-alike cookie carrying ANOTHER live session's id precedes the real session cookie
+            ans = PROBE_APP["ans"]
+            cb = lambda b, cookie, stt, code, **kw: dict({"op": "check", "b": b, "f": "f1", "kind": "callback", "cookie": cookie, "st": stt, "code": code, "qshape": "ok", "ans": ans}, **kw)
+            steps = [app("b1", "f1", cookie="none", url=1), app("b2", "f1", cookie="none", url=2),
+                     {"op": "authz", "b": "b1", "sid": 1}, {"op": "authz", "b": "b2", "sid": 2},
+                     # b2 presents its own (pending) session, the look-alike cookie names b1's; state and code are b1's
+                     cb("b2", "sid:2", "sid:1", "code:1", decoy="before", decoySid="sid:1"),
+                     cb("b1", "sid:1", "sid:1", "code:1"),                              # the honest completion still works
+                     app("b1", "f1", cookie="sid:1", url=1),
+                     # an authenticated look-alike does not authenticate the real (unknown) cookie
+                     app("b2", "f1", cookie="sid:2", decoy="before", decoySid="sid:1", url=2)]
+            res.append({"id": "decoy/live/%s/%s" % (st, prefix or "noprefix"), "cfg": {"filters": [f]}, "steps": steps, "tags": ["decoyCookie"]})
     return res
 
 
@@ -776,7 +788,7 @@ def c04(W, replay=None):
     if not replay:
         design_mc(W, "c04-design", ["ExchangeBound", "TokensFromOwnLogin"], Kinds='{"app","callback"}', MaxCode=3 if W.tier == "thorough" else 2)
         scen = family(W, "C04") + attacker_family(W, 600 if W.tier == "thorough" else 150) + parallel_family(W, 400 if W.tier == "thorough" else 40)
-        scen += family(W, "C18", "quick") + same_client_family(W) + discovery_family(W) + dup_chain_family(W) + shared_callback_family(W)
+        scen += family(W, "C18", "quick") + same_client_family(W) + discovery_family(W) + dup_chain_family(W) + shared_callback_family(W) + decoy_family(W)
     return sys_pipeline("C04", W, scen, None, ASSUME_SYS + ["the simulated token endpoint logs exactly what it was sent and is strict (RFC 6749/7636)"], replay=replay)
 
 
